@@ -84,7 +84,13 @@ def gen_smoothing(rng, nfft, dts, op=None, nfc=None):
         bw = float(rng.choice([0.15, 0.3, 0.5, rng.uniform(0.1, 0.6)]))
     else:
         bw = float(rng.uniform(3, 10) * df)
-    return dict(operator=op, bandwidth=bw, center_frequencies_in_hz=[float(x) for x in fcs])
+    fcs = [float(x) for x in fcs]
+    u = rng.random()       # a user-supplied array: ascending (75 %), descending or shuffled
+    if u < 0.1:
+        fcs = fcs[::-1]
+    elif u < 0.25:
+        fcs = [fcs[j] for j in rng.permutation(len(fcs))]
+    return dict(operator=op, bandwidth=bw, center_frequencies_in_hz=fcs)
 
 
 def fft_token(fft):
@@ -241,6 +247,10 @@ def results_agree(case, im, mo, rtol=1e-8):
         return (isinstance(a, str) and isinstance(b, str)), "error-vs-value"
     if im["fft_after"] != mo["fft_after"]:
         return False, "fft-length"
+    if case["family"] != "psd" and "frequency" in im:
+        # the curve is reported AT the requested centre frequencies, in the order requested
+        if not np.array_equal(np.asarray(im["frequency"], dtype=float), np.asarray(case["smoothing"]["center_frequencies_in_hz"], dtype=float)):
+            return False, "frequency-axis"
     if case["family"] == "az":
         if len(a) != len(b):
             return False, "n-azimuths"
